@@ -90,7 +90,10 @@ class HttpFrontend(pykka.ThreadingActor, CoreListener):
         self.server.stop()
 
     def on_event(self, event: CoreEvent, **data: CoreEventData) -> None:
-        assert self.server.io_loop
+        if self.server.io_loop is None:
+            # The server thread has not created its IO loop yet, so no WebSocket
+            # client can be connected: there is nobody to broadcast this event to.
+            return
         on_event(event, self.server.io_loop, **data)
 
 
